@@ -51,7 +51,7 @@ fn replay_payload(plan: &'static Plan, p: &Value) -> Result<(), (String, String)
                     let c = nest_case_of(&p2);
                     return match nest::run(&c, &plan.nest_target, || {}) {
                         nest::Out::Ok => Ok("decoded to the payload".into()),
-                        nest::Out::Err(e) if c.depth > 3 || !c.entry.has_payload() => Ok(format!("Err({e})")),
+                        nest::Out::Err(e) if c.depth > c.entry.must_decode_depth() || !c.entry.has_payload() => Ok(format!("Err({e})")),
                         nest::Out::Err(e) => Err(("outcome=shallow-nesting-rejected".into(), format!("Err({e})"))),
                         nest::Out::Wrong(w) => Err(("outcome=wrong-output".into(), w)),
                         nest::Out::Panic(msg, file) => Err((format!("outcome=panic msg={} file={}", vmc::normalise_msg(&msg), pool::norm_file(&file)), format!("panic: {msg} in {file}"))),
